@@ -44,6 +44,8 @@ enum Case {
     Latin1File(Vec<u8>),
     /// A large file on disk described by its construction (see border_file): not expanded in the case line.
     Border { border: usize, delta: i64, eol: u8, hi: bool },
+    /// The text is reached through an edit history (see build_history): start kind, order, cut points.
+    Edits { start: u8, order: u8, cuts: Vec<usize>, text: Vec<char> },
 }
 
 fn case_line(c: &Case) -> String {
@@ -64,8 +66,131 @@ fn case_line(c: &Case) -> String {
         Case::Border { border, delta, eol, hi } => {
             write!(out, "B {} {} {} {}", border, delta + 1000, eol, if *hi { 1 } else { 0 }).unwrap();
         }
+        Case::Edits { start, order, cuts, text } => {
+            // E <m> <m header numbers: start order cuts...> <code points of the text T>
+            write!(out, "E {} {} {}", 2 + cuts.len(), start, order).unwrap();
+            for c in cuts {
+                write!(out, " {}", c).unwrap();
+            }
+            for ch in text {
+                write!(out, " {}", *ch as u32).unwrap();
+            }
+        }
     }
     out
+}
+
+// ---------------------------------------------------------------------------------------------
+// texts reached through an edit history
+// ---------------------------------------------------------------------------------------------
+const KEEP_PREFIX: &str = "signal keep : bit;\n";
+
+/// (line, UTF-16 column) of the character offset `off` in the client's text (lines end at LF, CR, CRLF)
+fn client_pos(cur: &[char], off: usize) -> Position {
+    let (mut line, mut col) = (0u32, 0u32);
+    let mut i = 0;
+    while i < off {
+        let c = cur[i];
+        if c == '\n' {
+            line += 1;
+            col = 0;
+        } else if c == '\r' {
+            line += 1;
+            col = 0;
+            if i + 1 < cur.len() && cur[i + 1] == '\n' && i + 1 < off {
+                i += 1;
+            }
+        } else {
+            col += c.len_utf16() as u32;
+        }
+        i += 1;
+    }
+    Position::new(line, col)
+}
+
+/// Builds the document by `Source::change` calls with a range, as didChange does, and returns it together with
+/// the text the client has at the end.  start: 0 = opened empty, 1 = opened with ASCII text and emptied by a
+/// ranged delete of everything, 2 = opened with the ASCII line KEEP_PREFIX that stays (the case's text is the
+/// final text, which then contains that line).  The text T is cut at `cuts` (never behind a CR that is followed by
+/// LF or CR: mixing lone CRs with insertions next to them is the corner DESIGN.md 4.0 puts outside any
+/// normalising server's reach) and the pieces are inserted with order
+/// 0 = one after the other at the end, 1 = last piece first, each at the front, 2 = first, last, then the middle.
+fn build_history(start: u8, order: u8, cuts: &[usize], final_text: &[char]) -> (Source, Vec<char>) {
+    let path = Path::new("/verif_c11_edits.vhd");
+    // the case holds the FINAL text; with start = 2 it contains the kept line (in front, or behind for order 1)
+    let keep: Vec<char> = KEEP_PREFIX.chars().collect();
+    let (start, text): (u8, &[char]) = if start >= 2 {
+        if order == 1 && final_text.ends_with(&keep) {
+            (2, &final_text[..final_text.len() - keep.len()])
+        } else if order != 1 && final_text.starts_with(&keep) {
+            (2, &final_text[keep.len()..])
+        } else {
+            (0, final_text)
+        }
+    } else {
+        (start, final_text)
+    };
+    let (src, mut cur): (Source, Vec<char>) = match start {
+        0 => (Source::inline(path, ""), vec![]),
+        1 => {
+            let src = Source::inline(path, "entity old is end;\n-- gone\nx");
+            src.change(Some(&vhdl_lang::Range::new(Position::new(0, 0), Position::new(2, 1))), "");
+            (src, vec![])
+        }
+        _ => (Source::inline(path, KEEP_PREFIX), keep.clone()),
+    };
+    let mut bounds: Vec<usize> = vec![0];
+    for &c in cuts {
+        let mut c = c.min(text.len());
+        // never cut behind a CR that is followed by another line-break character: the server stores the
+        // following one as LF, and inserting "...CR" in front of it would form one CRLF
+        while c > 0 && c < text.len() && text[c - 1] == '\r' && (text[c] == '\n' || text[c] == '\r') {
+            c += 1;
+        }
+        if c > *bounds.last().unwrap() {
+            bounds.push(c);
+        }
+    }
+    if *bounds.last().unwrap() < text.len() || bounds.len() == 1 {
+        bounds.push(text.len());
+    }
+    let pieces: Vec<&[char]> = bounds.windows(2).map(|w| &text[w[0]..w[1]]).collect();
+    let mut insert = |cur: &mut Vec<char>, off: usize, piece: &[char]| {
+        let pos = client_pos(cur, off);
+        let t: String = piece.iter().collect();
+        src.change(Some(&vhdl_lang::Range::new(pos, pos)), &t);
+        let tail = cur.split_off(off);
+        cur.extend_from_slice(piece);
+        cur.extend(tail);
+    };
+    let base = cur.len();
+    match order {
+        0 => {
+            for p in &pieces {
+                let off = cur.len();
+                insert(&mut cur, off, p);
+            }
+        }
+        1 => {
+            for p in pieces.iter().rev() {
+                insert(&mut cur, 0, p);
+            }
+        }
+        _ => {
+            let n = pieces.len();
+            insert(&mut cur, base, pieces[0]);
+            if n > 1 {
+                let off = cur.len();
+                insert(&mut cur, off, pieces[n - 1]);
+                let mut off = base + pieces[0].len();
+                for p in &pieces[1..n - 1] {
+                    insert(&mut cur, off, p);
+                    off += p.len();
+                }
+            }
+        }
+    }
+    (src, cur)
 }
 
 /// A file whose line ending number k (LF, CR or CRLF according to `eol` = 0, 1, 2) starts at byte offset
@@ -118,6 +243,15 @@ fn parse_case(line: &str) -> Option<Case> {
     match tag {
         "U" => Some(Case::Utf(nums.iter().map(|x| char::from_u32(*x).unwrap()).collect())),
         "L" => Some(Case::Latin1File(nums.iter().map(|x| *x as u8).collect())),
+        "E" if !nums.is_empty() && nums.len() > nums[0] as usize && nums[0] >= 2 => {
+            let m = nums[0] as usize;
+            Some(Case::Edits {
+                start: nums[1] as u8,
+                order: nums[2] as u8,
+                cuts: nums[3..1 + m].iter().map(|x| *x as usize).collect(),
+                text: nums[1 + m..].iter().map(|x| char::from_u32(*x).unwrap()).collect(),
+            })
+        }
         "B" if nums.len() == 4 => Some(Case::Border {
             border: nums[0] as usize,
             delta: nums[1] as i64 - 1000,
@@ -470,6 +604,7 @@ fn run_case(symbols: &Symbols, kws: &[Kind], case: &Case, tmp: &Path) -> String 
                 let src = Source::from_latin1_file(tmp).unwrap();
                 (src, bs.iter().map(|b| *b as char).collect())
             }
+            Case::Edits { start, order, cuts, text } => build_history(*start, *order, cuts, text),
         };
         let lx = lex_source(symbols, &src, text.len());
         let toks = lx.toks.iter().map(|t| fmt_token(t, kws)).collect::<Vec<_>>().join(";");
@@ -701,7 +836,42 @@ fn with_special(rng: &mut Rng, s: String) -> String {
     }
 }
 
+/// the final text of an edit history whose inserted text is `text`
+fn with_keep(start: u8, order: u8, text: &[char]) -> Vec<char> {
+    let keep: Vec<char> = KEEP_PREFIX.chars().collect();
+    if start < 2 {
+        text.to_vec()
+    } else if order == 1 {
+        [text, &keep[..]].concat()
+    } else {
+        [&keep[..], text].concat()
+    }
+}
+
+/// the text of a `U` case, reached through an edit history instead
+fn as_edits(rng: &mut Rng, c: Case) -> Case {
+    match c {
+        Case::Utf(text) => {
+            let k = rng.below(4);
+            let mut cuts: Vec<usize> = (0..k).map(|_| rng.below(text.len() + 1)).collect();
+            cuts.sort();
+            let (start, order) = (rng.below(3) as u8, rng.below(3) as u8);
+            Case::Edits { start, order, cuts, text: with_keep(start, order, &text) }
+        }
+        c => c,
+    }
+}
+
 fn gen_random(rng: &mut Rng, kwnames: &[String]) -> Case {
+    let c = gen_random0(rng, kwnames);
+    if rng.chance(1, 8) {
+        as_edits(rng, c)
+    } else {
+        c
+    }
+}
+
+fn gen_random0(rng: &mut Rng, kwnames: &[String]) -> Case {
     match rng.below(10) {
         0..=2 => {
             let t = gen_soup(rng, kwnames, false);
@@ -827,6 +997,41 @@ fn main() {
         for _ in 0..n {
             let c = gen_random(&mut rng, &kwnames);
             emit(c);
+        }
+    } else if mode == "edits" {
+        // systematic: texts with Latin-1 / 3-byte / 4-byte characters and all line endings, every start kind,
+        // every order, every single cut and a few double cuts
+        const TEXTS: [&str; 14] = [
+            "-- \u{a9} M\u{fc}ller\nentity e is end;",
+            "-- \u{2026}\nentity e is end;",
+            "x <= \"5 \u{b5}s\" & '\u{e9}';\r\ny",
+            "-- \u{2019}\r\nentity e is end; -- \u{20ac}\rz",
+            "a \u{1f600} b\n/* \u{1d518}\n */ c",
+            "\\\u{e9}t\u{e9}\\ <= x\"AB\";\n16#FF#",
+            "\u{feff}entity e is\nend;",
+            "a\r\n\r\nb\r\rc\n",
+            "\u{e9}",
+            "\u{2026}\n",
+            "s := \"\u{df}\"\"\u{ff}\";",
+            "-- \u{e9}\u{2026}\u{1f600}\n'\u{e9}' '\u{d7}'",
+            "entity e is end;\n",
+            "x\u{20ac}\ny",
+        ];
+        for t in TEXTS.iter() {
+            let text: Vec<char> = t.chars().collect();
+            for start in 0..3u8 {
+                for order in 0..3u8 {
+                    emit(Case::Edits { start, order, cuts: vec![], text: with_keep(start, order, &text) });
+                    for c in 1..text.len() {
+                        emit(Case::Edits { start, order, cuts: vec![c], text: with_keep(start, order, &text) });
+                    }
+                    if text.len() >= 6 {
+                        for (a, b) in [(1, 3), (2, text.len() - 2), (text.len() / 2, text.len() / 2 + 1)] {
+                            emit(Case::Edits { start, order, cuts: vec![a, b], text: with_keep(start, order, &text) });
+                        }
+                    }
+                }
+            }
         }
     } else if mode == "borders" || mode == "borders_thorough" {
         // files on disk around the borders of 4 KiB .. 64 KiB blocks; n > 0: the files up to 16 KiB are emitted
